@@ -59,6 +59,11 @@ func (p Param) TypeStringEllipsis() string {
 // will return "int". If the parameter is not variadic, this will behave the same
 // as `TypeString`.
 func (p Param) TypeStringVariadicUnderlying() string {
+	if !p.Variadic {
+		// The type of a non-variadic parameter may itself contain "..."
+		// (e.g. func(xs ...int)), which must not be touched.
+		return p.TypeString()
+	}
 	typeString := p.TypeStringEllipsis()
 	return strings.Replace(typeString, "...", "", 1)
 }
